@@ -1,6 +1,46 @@
 (* MergePostings_Proofs.v - R-merge for postings: the per-field loop of the
-   merger (model: Ice.MergePostings) produces exactly what the merge
-   specification says. *)
+   merger (model: Ice.MergePostings, following /repo/merge.go
+   persistMergedRestField) produces exactly what the merge specification says.
+
+   Setting (Section Main).  [insE] is the list of inputs (A_i, dr_i, enc_i):
+   an abstract segment, its deletion list and the encoding of each of its terms
+   of field f; ins = map fst insE, M = fst (merge_spec ins), tables = snd
+   (merge_spec ins).  Hypotheses:
+     * every A_i is well formed ([wf_seg]: canonical field list, document fields
+       and location field names known to the segment, no duplicate term in a
+       document field, postings within the bounds of Iterator_Proofs.wf_posting,
+       norms <> 0, fewer than 2^31 documents);
+     * every term t of A_i has an admissible encoding enc_i t ([admissible_enc]):
+       E1Hit for a single posting of frequency 1 without locations whose norm
+       bits fit 31 bits, or encode_gen with ANY chunk size > 0 and enough
+       chunks - the theorems hold whichever admissible encoding each term has;
+     * [foc] selects the segments "in focus" (setupActiveForField): a segment
+       left out does not know the field (foc := fun A => known_field A f is the
+       real selection; foc := fun _ => true is allowed as well);
+     * f is a field of M, the chunk mode is valid, 0 < o_count M < 2^32
+       (mergeToWriter runs the loop only when numDocs > 0).
+   valid_drops is not needed.  The active inputs are
+   [merge_acts] = setup_active of (fieldsInv, dictionary, drops, nth i tables).
+
+   Theorems (all closed under the global context):
+     merge_field_correct   everything at once
+     collected_postings,
+     merge_term_postings   (a) the postings collected for a term are
+                               map (to_eposting (as_fields M)) (o_postings M f t)
+     merge_terms           (b) the terms kept are o_terms M f, in order
+     merge_encoding        (c) each is encoded as Run.encode_term on the slot
+                               (M, chunkMode, merged, merge_no1hit ins M), 1-hit rule
+                               included; newCard = lenN (o_postings M f t)
+     last_single               what finishTerm sees from the LAST input that has the term
+     merge_field_stats     (d) fieldDocs / fieldFreqs = merged_stats
+     merge_field_total     (e) never Err / Panic / OutOfFuel
+     merged_term_coders        the coder abstraction is exact for the collected postings
+     ex_merge_field, ex_merge_field_spec, ex_theorem_applies
+                           (f) example by vm_compute, and the hypotheses hold for it
+
+   The loop is analysed on the list [Enumerator.enum_run_low_new] (the real
+   enumerator model); [turns_grouped] rewrites it into the triples grouped by
+   term using Enumerator_Proofs.enumerator_sorted_complete_nz and enum_low_idxs. *)
 From Coq Require Import List Arith NArith Bool Lia Sorting.Sorted Permutation.
 From Ice Require Import Base Spec Varint Chunk Postings Enumerator Run MergePostings.
 From IceProofs Require Import Sort_Proofs Docnums_Proofs MergeAlgebra_Proofs DocsMatching_Proofs
@@ -1018,7 +1058,9 @@ Section Loop.
   Lemma finish_props st s : finish_term ndc st = Ok s -> ms_prev s = ms_prev st /\ Clean s.
   Proof.
     rewrite finish_term_eq. destruct (ms_total ndc (ms_cs st) <=? ms_cur st); [discriminate|].
-    cbv zeta. intros E. injection E as <-. split; [reflexivity|].
+    cbv zeta. intros E.
+    pose proof (f_equal (fun r => match r with Ok v => v | _ => s end) E) as E'. cbv beta iota in E'.
+    rewrite <- E'. split; [reflexivity|].
     unfold Clean. cbn [ms_ps ms_cur ms_lastDoc ms_lastFreq ms_lastNorm]. auto.
   Qed.
 
@@ -1043,7 +1085,7 @@ Section Loop.
                     then prepare_new_term cm ndc acts (idxs_with t its) (vals_with t its) st1
                     else Ok st1)) = Ok (set_ccs st t)).
     { destruct (beq (key_bytes (ms_prev st)) t) eqn:Eb; cbn [negb orb].
-      - destruct HP as [HP|HP]; [discriminate|]. cbn [rbind]. rewrite HP. cbn [key_is_nil].
+      - destruct HP as [HP|HP]; [congruence|]. cbn [rbind]. rewrite HP. cbn [key_is_nil].
         apply prepare_ok.
       - rewrite (finish_clean st HC). cbn [rbind]. apply prepare_ok. }
     assert (Hcur : ms_cur (set_ccs st t) < total_of t).
@@ -1212,3 +1254,1058 @@ Section Loop.
       repeat split; reflexivity.
   Qed.
 End Loop.
+
+(* ================================================================== *)
+(* 6. the inputs of a merge, tied to merge_spec                        *)
+(* ================================================================== *)
+
+Lemma flat_map'_filter_skip {X Y} (g : X -> list Y) (P : X -> bool) (l : list X) :
+  (forall x, In x l -> P x = false -> g x = []) -> flat_map' g (filter P l) = flat_map' g l.
+Proof.
+  induction l as [|x l IH]; intros H; [reflexivity|]. cbn [filter flat_map'].
+  destruct (P x) eqn:E; cbn [flat_map'].
+  - f_equal. apply IH. intros y Hy. apply H. right. exact Hy.
+  - rewrite (H x (or_introl eq_refl) E). cbn [app]. apply IH. intros y Hy. apply H. right. exact Hy.
+Qed.
+
+Lemma find_mem_terms (t : bytes) (l : list ATerm) :
+  mem beq t (map fst l) = match find (fun a : ATerm => beq (fst a) t) l with Some _ => true | None => false end.
+Proof.
+  induction l as [|a l IH]; [reflexivity|]. cbn [map mem find]. rewrite (beq_sym t (fst a)).
+  destruct (beq (fst a) t); [reflexivity|]. exact IH.
+Qed.
+
+Lemma doc_posting_nonempty (f t : bytes) (n : N) (d : ADoc) :
+  mem beq t (map fst (doc_terms d f)) = match doc_posting f t (n, d) with [] => false | _ :: _ => true end.
+Proof.
+  unfold doc_terms, doc_posting. cbn [snd]. destruct (doc_field d f) as [df|]; [|reflexivity].
+  rewrite find_mem_terms. destruct (find _ _) as [[k [fr ls]]|]; reflexivity.
+Qed.
+
+(* a term with a posting is a term of the dictionary *)
+Lemma postings_term (A : ASeg) (f t : bytes) : o_postings A f t <> [] -> In t (o_terms A f).
+Proof.
+  rewrite o_postings_from. unfold o_terms. destruct (known_field A f); [|intros H; contradiction].
+  intros H. apply sort_dedup_bytes_In. apply In_flat_map'.
+  assert (Hex : exists p, In p (posts_from f t 0 (as_docs A))).
+  { destruct (posts_from f t 0 (as_docs A)) as [|p l]; [contradiction|]. exists p. left. reflexivity. }
+  destruct Hex as [p Hp]. unfold posts_from in Hp. apply In_flat_map' in Hp.
+  destruct Hp as [[n d] [Hnd Hp]]. exists d. split.
+  - apply number_from_In in Hnd. destruct Hnd as [k [_ Hk]]. eapply nth_error_In. exact Hk.
+  - apply (mem_In beq beq_eq). rewrite (doc_posting_nonempty f t n d).
+    destruct (doc_posting f t (n, d)); [destruct Hp|reflexivity].
+Qed.
+
+Lemma posts_from_length f t : forall docs i, lenN (posts_from f t i docs) <= lenN docs.
+Proof.
+  induction docs as [|d docs IH]; intros i; [unfold lenN; cbn; lia|].
+  rewrite posts_from_cons, lenN_app. specialize (IH (i + 1)).
+  destruct (doc_posting_shape f t i d) as [E|[x E]]; rewrite E; unfold lenN in *; cbn [length]; lia.
+Qed.
+
+Lemma in_with_tables (insE : list InE) : forall base D,
+  In D (with_tables insE base) ->
+  exists A dr e b, In (A, dr, e) insE /\ D = mkSD A dr e (renumber (length (as_docs A)) 0 dr b).
+Proof.
+  induction insE as [|[[A dr] e] r IH]; intros base D H; [destruct H|].
+  cbn [with_tables] in H. destruct H as [<-|H].
+  - exists A, dr, e, base. split; [left; reflexivity|reflexivity].
+  - destruct (IH _ _ H) as [A' [dr' [e' [b [Hin E]]]]]. exists A', dr', e', b. split; [right; exact Hin|exact E].
+Qed.
+
+Lemma emit_doc nf tbl p : ep_doc (emit nf tbl p) = nd_of tbl p.
+Proof. destruct p as [d [fr [nm ls]]]. reflexivity. Qed.
+Lemma emit_freq nf tbl p : ep_freq (emit nf tbl p) = ap_freq p.
+Proof. destruct p as [d [fr [nm ls]]]. reflexivity. Qed.
+Lemma emit_norm nf tbl p : ep_norm (emit nf tbl p) = ap_norm p.
+Proof. destruct p as [d [fr [nm ls]]]. reflexivity. Qed.
+
+Section Main.
+  Variables (cm : N) (f : bytes) (insE : list InE) (foc : ASeg -> bool).
+  Local Notation ins := (ins_of insE).
+  Local Notation M := (fst (merge_spec (ins_of insE))).
+  Local Notation nf := (as_fields (fst (merge_spec (ins_of insE)))).
+  Local Notation ndc := (o_count (fst (merge_spec (ins_of insE)))).
+
+  Definition Ds : list SegD := descriptors insE (snd (merge_spec ins)).
+  Definition DsA : list SegD := filter (fun D => foc (sd_A D)) Ds.
+
+  Hypothesis Hins : forall A dr e, In (A, dr, e) insE ->
+    wf_seg A /\ (forall t, In t (o_terms A f) -> admissible_enc A f t (e t)).
+  Hypothesis Hfoc : forall A dr e, In (A, dr, e) insE -> foc A = false -> known_field A f = false.
+  Hypothesis HfM : In f nf.
+  Hypothesis Hcm : valid_mode cm = true.
+  Hypothesis Hpos : 0 < ndc.
+  Hypothesis H32 : ndc < two32.
+
+  Lemma Ds_eq : Ds = with_tables insE 0.
+  Proof. unfold Ds. rewrite merge_spec_snd. apply descriptors_with_tables. Qed.
+
+  Lemma ins_incl A dr e : In (A, dr, e) insE -> forall x, In x (as_fields A) -> In x nf.
+  Proof.
+    intros Hin x Hx. apply merge_fields_In. right. exists A, dr. split; [|exact Hx].
+    unfold ins_of. apply in_map_iff. exists (A, dr, e). split; [reflexivity|exact Hin].
+  Qed.
+
+  Lemma known_M : known_field M f = true.
+  Proof. apply known_field_In. exact HfM. Qed.
+
+  Lemma M_postings t : o_postings M f t = posts_from f t 0 (all_survivors ins).
+  Proof. rewrite merge_postings_docs, known_M. reflexivity. Qed.
+
+  (* (a), over all inputs *)
+  Lemma PS_all t : flat_map' (seg_emit nf f t) Ds = map (to_eposting nf) (o_postings M f t).
+  Proof.
+    rewrite Ds_eq, M_postings. symmetry. apply merged_postings_split.
+    intros A dr e Hin. split; [apply (Hins A dr e Hin)|apply (ins_incl A dr e Hin)].
+  Qed.
+
+  Lemma count_M : ndc = lenN (all_survivors ins).
+  Proof. unfold o_count. rewrite merge_docs. reflexivity. Qed.
+
+  Lemma Ds_in D : In D Ds ->
+    exists A dr e b, In (A, dr, e) insE /\ D = mkSD A dr e (renumber (length (as_docs A)) 0 dr b).
+  Proof. rewrite Ds_eq. apply in_with_tables. Qed.
+
+  Lemma hits_bound D t p : In D Ds -> In p (seg_hits f t D) ->
+    (N.to_nat (fst p) < length (sd_tbl D))%nat /\ nd_of (sd_tbl D) p <> docDropped
+    /\ nd_of (sd_tbl D) p < ndc.
+  Proof.
+    intros HD Hp.
+    assert (Hlt : nd_of (sd_tbl D) p < ndc).
+    { assert (Hin : In (emit nf (sd_tbl D) p) (flat_map' (seg_emit nf f t) Ds)).
+      { apply In_flat_map'. exists D. split; [exact HD|]. unfold seg_emit. apply in_map. exact Hp. }
+      rewrite PS_all, M_postings in Hin. apply in_map_iff in Hin. destruct Hin as [q [Eq Hq]].
+      apply posts_from_range in Hq. rewrite <- (emit_doc nf), <- Eq, to_eposting_doc, count_M. lia. }
+    split; [|split; [|exact Hlt]].
+    - destruct (Ds_in D HD) as [A [dr [e [b [Hin ->]]]]]. cbn [sd_tbl]. rewrite renumber_length.
+      unfold seg_hits in Hp. cbn [sd_A sd_dr] in Hp. apply filter_In in Hp. destruct Hp as [Hp _].
+      rewrite o_postings_from in Hp. destruct (known_field A f); [|destruct Hp].
+      apply posts_from_range in Hp. unfold lenN in Hp. lia.
+    - unfold docDropped. unfold two32 in H32. lia.
+  Qed.
+
+  Lemma DsA_in D : In D DsA -> In D Ds /\ foc (sd_A D) = true.
+  Proof. unfold DsA. apply filter_In. Qed.
+
+  Lemma HD_main : forall D, In D DsA ->
+    wf_seg (sd_A D)
+    /\ (forall t, In t (o_terms (sd_A D) f) -> admissible_enc (sd_A D) f t (sd_enc D t))
+    /\ (forall t p, In p (seg_hits f t D) ->
+          (N.to_nat (fst p) < length (sd_tbl D))%nat /\ nd_of (sd_tbl D) p <> docDropped
+          /\ nd_of (sd_tbl D) p < ndc).
+  Proof.
+    intros D HD. apply DsA_in in HD. destruct HD as [HD _].
+    destruct (Ds_in D HD) as [A [dr [e [b [Hin E]]]]].
+    destruct (Hins A dr e Hin) as [Hwf Hadm].
+    split; [rewrite E; exact Hwf|]. split; [rewrite E; exact Hadm|].
+    intros t p Hp. apply (hits_bound D t p HD Hp).
+  Qed.
+
+  (* inputs that are not in focus, or do not have the term, emit nothing *)
+  Lemma seg_hits_nil t D : In D Ds -> (foc (sd_A D) = false \/ has_term f t D = false) -> seg_hits f t D = [].
+  Proof.
+    intros HD Hc. unfold seg_hits.
+    assert (E : o_postings (sd_A D) f t = []); [|rewrite E; reflexivity].
+    destruct Hc as [Hc|Hc].
+    - destruct (Ds_in D HD) as [A [dr [e [b [Hin ->]]]]]. cbn [sd_A] in *.
+      rewrite o_postings_from, (Hfoc A dr e Hin Hc). reflexivity.
+    - destruct (o_postings (sd_A D) f t) eqn:E; [reflexivity|exfalso].
+      assert (Hin : In t (o_terms (sd_A D) f)) by (apply postings_term; rewrite E; discriminate).
+      apply (mem_In beq beq_eq) in Hin. unfold has_term in Hc. congruence.
+  Qed.
+
+  Lemma Dt_all {Y} (g : SegD -> list Y) t :
+    (forall D, seg_hits f t D = [] -> g D = []) ->
+    flat_map' g (Dt f DsA t) = flat_map' g Ds.
+  Proof.
+    intros Hg. unfold Dt, DsA. rewrite !flat_map'_filter_skip; [reflexivity| |].
+    - intros D HD Hc. apply Hg. apply seg_hits_nil; auto.
+    - intros D HD Hc. apply filter_In in HD. destruct HD as [HD _]. apply Hg. apply seg_hits_nil; auto.
+  Qed.
+
+  (* (a): what the loop collects for term t *)
+  Lemma PS_main t : PS nf f DsA t = map (to_eposting nf) (o_postings M f t).
+  Proof.
+    unfold PS. rewrite Dt_all; [apply PS_all|]. intros D E. unfold seg_emit. rewrite E. reflexivity.
+  Qed.
+
+  Lemma card_main t : card f DsA t = lenN (o_postings M f t).
+  Proof.
+    assert (E : card f DsA t = lenN (PS nf f DsA t)).
+    { unfold card, PS. generalize (Dt f DsA t). intros l. induction l as [|D l IH]; [reflexivity|].
+      cbn [map sumN flat_map']. rewrite lenN_app, IH. f_equal. unfold seg_emit, lenN. rewrite map_length. reflexivity. }
+    rewrite E, PS_main. unfold lenN. rewrite map_length. reflexivity.
+  Qed.
+
+  Lemma card_le t : card f DsA t <= ndc.
+  Proof. rewrite card_main, M_postings, count_M. apply posts_from_length. Qed.
+
+  Lemma Hcs_main : forall t, exists cs, getChunkSize cm (card f DsA t) ndc = Some cs /\ 0 < cs.
+  Proof.
+    intros t. pose proof (card_le t) as Hle. unfold getChunkSize, valid_mode in *.
+    unfold legacyChunkMode, chunkModeV1, maxDocsToScanSequentially in *.
+    destruct (cm <=? 1024) eqn:E1.
+    - exists cm. split; [reflexivity|]. lia.
+    - assert (E2 : (cm =? 1025) = true) by lia. rewrite E2. eexists. split; [reflexivity|].
+      set (c := card f DsA t) in *. clearbody c.
+      assert (Hq : c / 1024 + 1 <= ndc).
+      { destruct (N.eq_dec c 0) as [Hc|Hc]; [subst c; change (0 / 1024) with 0; lia|].
+        assert (c / 1024 < c) by (apply N.div_lt; lia). lia. }
+      apply N.div_str_pos. split; [lia|exact Hq].
+  Qed.
+  (* ---- (b) the terms that are kept ---- *)
+  Definition nonempty (t : bytes) : bool :=
+    match o_postings M f t with [] => false | _ :: _ => true end.
+
+  Lemma all_terms_of t D : In D DsA -> has_term f t D = true -> In t (all_terms (its f DsA)).
+  Proof.
+    intros HD Ht. unfold all_terms. apply sort_dedup_bytes_In. apply In_flat_map'.
+    exists (ai_itr (mk_active f D)). split.
+    - unfold its, acts. rewrite map_map. apply in_map_iff. exists D. split; [reflexivity|exact HD].
+    - rewrite <- ai_itr_has in Ht. apply has_key_In in Ht. destruct Ht as [v Hv].
+      apply in_map_iff. exists (t, v). split; [reflexivity|exact Hv].
+  Qed.
+
+  Lemma M_term_in_all t : In t (o_terms M f) -> In t (all_terms (its f DsA)).
+  Proof.
+    intros Ht. apply o_terms_have_postings in Ht.
+    assert (Hps : PS nf f DsA t <> []).
+    { rewrite PS_main. destruct (o_postings M f t); [contradiction|discriminate]. }
+    unfold PS in Hps. destruct (Dt f DsA t) as [|D l] eqn:E; [contradiction|].
+    assert (HD : In D (Dt f DsA t)) by (rewrite E; left; reflexivity).
+    unfold Dt in HD. apply filter_In in HD. destruct HD as [HD Hh]. eapply all_terms_of; eauto.
+  Qed.
+
+  Lemma terms_kept : filter nonempty (all_terms (its f DsA)) = o_terms M f.
+  Proof.
+    apply strict_sorted_bytes_ext.
+    - apply sorted_filter. apply sort_dedup_bytes_sorted.
+    - apply o_terms_sorted.
+    - intros t. rewrite filter_In. unfold nonempty. split.
+      + intros [_ Hn]. apply postings_term. destruct (o_postings M f t); [discriminate|discriminate].
+      + intros Ht. split; [apply M_term_in_all; exact Ht|].
+        apply o_terms_have_postings in Ht. destruct (o_postings M f t); [contradiction|reflexivity].
+  Qed.
+
+  Lemma flat_map'_single {X Y} (g : X -> list Y) (h : X -> Y) (P : X -> bool) (l : list X) :
+    (forall x, In x l -> P x = false -> g x = []) ->
+    (forall x, In x l -> P x = true -> g x = [h x]) ->
+    flat_map' g l = map h (filter P l).
+  Proof.
+    induction l as [|x l IH]; intros H0 H1; [reflexivity|]. cbn [flat_map' filter].
+    rewrite IH; [| intros y Hy; apply H0; right; exact Hy | intros y Hy; apply H1; right; exact Hy].
+    destruct (P x) eqn:E.
+    - rewrite (H1 x (or_introl eq_refl) E). reflexivity.
+    - rewrite (H0 x (or_introl eq_refl) E). reflexivity.
+  Qed.
+
+  (* ---- the new bitmap ---- *)
+  Lemma M_posting_doc t p : In p (o_postings M f t) -> fst p < ndc.
+  Proof. rewrite M_postings, count_M. intros H. apply posts_from_range in H. lia. Qed.
+
+  Lemma sort_dedup_N_fix (l : list N) : strict_sorted_N l -> sort_dedup_N l = l.
+  Proof.
+    intros H. apply strict_sorted_N_ext; [apply sort_dedup_N_sorted|exact H|apply sort_dedup_N_In].
+  Qed.
+
+  Lemma M_roaring t :
+    new_roaring (map (to_eposting nf) (o_postings M f t)) = map fst (o_postings M f t).
+  Proof.
+    unfold new_roaring. rewrite map_map.
+    rewrite (map_ext_in (fun x : APosting => wrap32 (ep_doc (to_eposting nf x))) fst).
+    - apply sort_dedup_N_fix. unfold strict_sorted_N.
+      apply (sorted_map (fun p q : APosting => fst p < fst q)); [auto|apply o_postings_sorted].
+    - intros p Hp. rewrite to_eposting_doc. apply wrap32_small.
+      pose proof (M_posting_doc t p Hp). lia.
+  Qed.
+
+  (* ---- (c) the 1-hit decision ---- *)
+  Definition nonnil {X} (l : list X) : bool := match l with [] => false | _ :: _ => true end.
+
+  Lemma nonnil_app {X} (a b : list X) : nonnil (a ++ b) = nonnil a || nonnil b.
+  Proof. destruct a; reflexivity. Qed.
+
+  Lemma survives_hits t dr : forall docs i,
+    existsb (fun nd : N * ADoc => negb (memN (fst nd) dr) && mem beq t (map fst (doc_terms (snd nd) f)))
+            (number_from i docs)
+    = nonnil (filter (Spec.live dr) (posts_from f t i docs)).
+  Proof.
+    induction docs as [|d docs IH]; intros i; [reflexivity|].
+    cbn [number_from existsb fst snd]. rewrite posts_from_cons, filter_app, nonnil_app, IH. f_equal.
+    rewrite (doc_posting_nonempty f t i d).
+    destruct (doc_posting_shape f t i d) as [E|[x E]]; rewrite E; cbn [filter].
+    - apply andb_false_r.
+    - unfold Spec.live. cbn [fst]. rewrite andb_true_r. destruct (negb (memN i dr)); reflexivity.
+  Qed.
+
+  Lemma has_term_known t D : has_term f t D = true -> known_field (sd_A D) f = true.
+  Proof.
+    unfold has_term, o_terms. destruct (known_field (sd_A D) f); [reflexivity|discriminate].
+  Qed.
+
+  Lemma survives_seg t D : has_term f t D = true ->
+    survives_in (sd_A D) (sd_dr D) f t = nonnil (seg_hits f t D).
+  Proof.
+    intros Ht. unfold survives_in, seg_hits. rewrite o_postings_from, (has_term_known t D Ht).
+    apply survives_hits.
+  Qed.
+
+  Definition lw_step (t : bytes) (acc : option (ASeg * list N)) (D : SegD) : option (ASeg * list N) :=
+    if has_term f t D then Some (sd_A D, sd_dr D) else acc.
+
+  Lemma last_with_term_Ds t : forall (l : list InE) base acc,
+    fold_left (fun acc p => if mem beq t (snd p) then Some (fst p) else acc)
+              (map (fun p : ASeg * list N => (p, o_terms (fst p) f)) (ins_of l)) acc
+    = fold_left (lw_step t) (with_tables l base) acc.
+  Proof.
+    induction l as [|[[A dr] e] r IH]; intros base acc; [reflexivity|].
+    cbn [ins_of map fold_left with_tables fst snd]. unfold lw_step at 2. unfold has_term. cbn [sd_A sd_dr].
+    apply IH.
+  Qed.
+
+  Lemma lw_filter t : forall l acc,
+    fold_left (lw_step t) l acc = fold_left (lw_step t) (filter (has_term f t) l) acc.
+  Proof.
+    induction l as [|D l IH]; intros acc; [reflexivity|]. cbn [fold_left filter].
+    destruct (has_term f t D) eqn:E; cbn [fold_left].
+    - apply IH.
+    - replace (lw_step t acc D) with acc by (unfold lw_step; rewrite E; reflexivity). apply IH.
+  Qed.
+
+  Lemma filter_filter_sub {X} (P Q : X -> bool) (l : list X) :
+    (forall x, In x l -> P x = true -> Q x = true) -> filter P (filter Q l) = filter P l.
+  Proof.
+    induction l as [|x l IH]; intros H; [reflexivity|]. cbn [filter].
+    destruct (Q x) eqn:EQ; cbn [filter].
+    - rewrite IH by (intros y Hy; apply H; right; exact Hy). reflexivity.
+    - destruct (P x) eqn:EP.
+      + rewrite (H x (or_introl eq_refl) EP) in EQ. discriminate.
+      + apply IH. intros y Hy. apply H. right. exact Hy.
+  Qed.
+
+  Lemma Dt_Ds t : Dt f DsA t = filter (has_term f t) Ds.
+  Proof.
+    unfold Dt, DsA. apply filter_filter_sub. intros D HD Ht.
+    destruct (foc (sd_A D)) eqn:E; [reflexivity|].
+    destruct (Ds_in D HD) as [A [dr [e [b [Hin ->]]]]]. cbn [sd_A] in *.
+    apply has_term_known in Ht. cbn [sd_A] in Ht. rewrite (Hfoc A dr e Hin E) in Ht. discriminate.
+  Qed.
+
+  Lemma last_with_term_main t L Dl :
+    Dt f DsA t = L ++ [Dl] ->
+    last_with_term (map (fun p : ASeg * list N => (p, o_terms (fst p) f)) ins) t = Some (sd_A Dl, sd_dr Dl).
+  Proof.
+    intros E. unfold last_with_term. rewrite (last_with_term_Ds t insE 0), <- Ds_eq, lw_filter, <- Dt_Ds, E.
+    rewrite fold_left_app. cbn [fold_left]. unfold lw_step at 1.
+    assert (Hh : has_term f t Dl = true).
+    { assert (Hin : In Dl (Dt f DsA t)) by (rewrite E; apply in_or_app; right; left; reflexivity).
+      unfold Dt in Hin. apply filter_In in Hin. apply Hin. }
+    rewrite Hh. reflexivity.
+  Qed.
+
+  Lemma no1hit_mem t q :
+    o_postings M f t = [q] ->
+    existsb (fun ft : bytes * bytes => beq (fst ft) f && beq (snd ft) t) (merge_no1hit ins M)
+    = match last_with_term (map (fun p : ASeg * list N => (p, o_terms (fst p) f)) ins) t with
+      | Some (A, dr) => negb (survives_in A dr f t)
+      | None => false
+      end.
+  Proof.
+    intros Hq.
+    assert (Ht : In t (o_terms M f)) by (apply postings_term; rewrite Hq; discriminate).
+    set (tl := map (fun p : ASeg * list N => (p, o_terms (fst p) f)) ins).
+    assert (Hiff : In (f, t) (merge_no1hit ins M) <->
+                   In (f, t) (match last_with_term tl t with
+                              | Some (A, dr) => if survives_in A dr f t then [] else [(f, t)]
+                              | None => []
+                              end)).
+    { unfold merge_no1hit. rewrite In_flat_map'. split.
+      - intros [f' [Hf' Hin]]. apply In_flat_map' in Hin. destruct Hin as [t' [Ht' Hin]].
+        assert (E : f' = f /\ t' = t).
+        { destruct (o_postings M f' t') as [|? [|? ?]]; try (destruct Hin; fail).
+          destruct (last_with_term _ t') as [[A dr]|]; [|destruct Hin].
+          destruct (survives_in A dr f' t'); [destruct Hin|].
+          destruct Hin as [E|[]]. injection E as -> ->. auto. }
+        destruct E as [-> ->]. rewrite Hq in Hin. exact Hin.
+      - intros Hin. exists f. split; [exact HfM|]. apply In_flat_map'. exists t. split; [exact Ht|].
+        rewrite Hq. exact Hin. }
+    destruct (existsb _ (merge_no1hit ins M)) eqn:Ex.
+    - apply existsb_exists in Ex. destruct Ex as [[f' t'] [Hin Hb]]. cbn [fst snd] in Hb.
+      apply andb_prop in Hb. destruct Hb as [Hb1 Hb2]. apply beq_eq in Hb1, Hb2. subst f' t'.
+      apply Hiff in Hin. destruct (last_with_term tl t) as [[A dr]|]; [|destruct Hin].
+      destruct (survives_in A dr f t); [destruct Hin|reflexivity].
+    - destruct (last_with_term tl t) as [[A dr]|] eqn:El; [|reflexivity].
+      destruct (survives_in A dr f t) eqn:Es; [reflexivity|].
+      exfalso. assert (Hin : In (f, t) (merge_no1hit ins M)) by (apply Hiff; left; reflexivity).
+      assert (Ex' : existsb (fun ft : bytes * bytes => beq (fst ft) f && beq (snd ft) t) (merge_no1hit ins M) = true).
+      { apply existsb_exists. exists (f, t). split; [exact Hin|]. cbn [fst snd]. rewrite !beq_refl. reflexivity. }
+      congruence.
+  Qed.
+
+  Lemma land_mask31 d : d <= mask31 -> N.land mask31 d = d.
+  Proof.
+    intros H. rewrite N.land_comm. change mask31 with (N.ones 31). rewrite N.land_ones.
+    apply N.mod_small. unfold mask31 in H. change (2 ^ 31) with 2147483648. lia.
+  Qed.
+
+  (* what the last input that has the term reports, against the single surviving posting *)
+  Lemma last_single t q :
+    o_postings M f t = [q] ->
+    let p := to_eposting nf q in
+    let no1 := existsb (fun ft : bytes * bytes => beq (fst ft) f && beq (snd ft) t) (merge_no1hit ins M) in
+    (no1 = false /\ LAST f DsA t = (ep_doc p, (ep_freq p, ep_norm p)))
+    \/ (no1 = true /\ LAST f DsA t = (0, (0, 0))).
+  Proof.
+    intros Hq p no1.
+    assert (Hps : PS nf f DsA t = [p]) by (rewrite PS_main, Hq; reflexivity).
+    assert (Hne : Dt f DsA t <> []).
+    { intros E. unfold PS in Hps. rewrite E in Hps. discriminate. }
+    destruct (exists_last Hne) as [L [Dl E]].
+    assert (Hin : In Dl (Dt f DsA t)) by (rewrite E; apply in_or_app; right; left; reflexivity).
+    assert (Hh : has_term f t Dl = true) by (unfold Dt in Hin; apply filter_In in Hin; apply Hin).
+    assert (Hno : no1 = negb (nonnil (seg_hits f t Dl))).
+    { unfold no1. rewrite (no1hit_mem t q Hq), (last_with_term_main t L Dl E), survives_seg by exact Hh.
+      reflexivity. }
+    assert (HL : LAST f DsA t = hits_last f t Dl).
+    { unfold LAST. rewrite E, fold_left_app. reflexivity. }
+    unfold PS in Hps. rewrite E, flat_map'_app in Hps. cbn [flat_map'] in Hps. rewrite app_nil_r in Hps.
+    destruct (seg_hits f t Dl) as [|h hs] eqn:Eh.
+    - right. split; [rewrite Hno; reflexivity|]. rewrite HL. unfold hits_last. rewrite Eh. reflexivity.
+    - left. split; [rewrite Hno; reflexivity|]. rewrite HL. unfold hits_last. rewrite Eh.
+      set (X := flat_map' (seg_emit nf f t) L) in *. clearbody X.
+      unfold seg_emit in Hps. rewrite Eh in Hps. cbn [map] in Hps.
+      destruct X as [|x xs].
+      + cbn [app] in Hps. injection Hps as Hp Hhs. apply map_eq_nil in Hhs. subst hs.
+        unfold last3. cbn [last]. rewrite <- Hp, emit_doc, emit_freq, emit_norm. reflexivity.
+      + cbn [app] in Hps. injection Hps as _ Hbad. destruct xs; discriminate.
+  Qed.
+
+  (* ---- (c) the encoding of a kept term ---- *)
+  Definition mslot : Slot := mkSlot M cm true (merge_no1hit ins M).
+
+  Lemma OUT_empty t : nonempty t = false -> OUT cm ndc nf f DsA t = ([], []).
+  Proof.
+    unfold nonempty, OUT. intros H. rewrite PS_main. destruct (o_postings M f t); [reflexivity|discriminate].
+  Qed.
+
+  Lemma map_fst_eposting (P : list APosting) : map fst P = map ep_doc (map (to_eposting nf) P).
+  Proof. rewrite map_map. apply map_ext. intros p. rewrite to_eposting_doc. reflexivity. Qed.
+
+  Lemma OUT_kept t : nonempty t = true ->
+    OUT cm ndc nf f DsA t =
+    ([(t, encode_term mslot f t)],
+     [mkTL t (lenN (o_postings M f t))
+           (opt_default 0 (getChunkSize cm (lenN (o_postings M f t)) ndc))
+           (map (to_eposting nf) (o_postings M f t)) (LAST f DsA t)]).
+  Proof.
+    intros Hn. unfold OUT. rewrite PS_main. unfold CS. rewrite card_main. unfold fin_out.
+    rewrite M_roaring. unfold encode_term, mslot. cbn [sl_seg sl_cm sl_merged sl_no1hit].
+    set (P := o_postings M f t) in *. rewrite (map_fst_eposting P).
+    set (cs := opt_default 0 (getChunkSize cm (lenN P) ndc)).
+    assert (Elen : lenN (map (to_eposting nf) P) = lenN P) by (unfold lenN; rewrite map_length; reflexivity).
+    rewrite Elen. fold cs.
+    unfold nonempty in Hn. fold P in Hn. unfold encode_gen.
+    destruct P as [|q [|q2 P']] eqn:EP; [discriminate| |].
+    - (* exactly one posting *)
+      cbn [map]. set (p := to_eposting nf q). cbn [existsb]. rewrite !orb_false_r.
+      change (lenN [ep_doc p] =? 1) with true. cbn [andb].
+      destruct (last_single t q EP) as [[Hno HL]|[Hno HL]]; cbv zeta in Hno, HL; fold p in HL;
+        rewrite Hno, HL; cbn [fst snd negb].
+      + rewrite N.eqb_refl, !andb_true_r.
+        destruct (negb (ep_hasLocs p) && (ep_doc p <=? mask31) && (ep_freq p =? 1)) eqn:Ec.
+        * apply andb_prop in Ec. destruct Ec as [Ec _]. apply andb_prop in Ec. destruct Ec as [_ Ec].
+          rewrite land_mask31 by lia. rewrite (N.land_comm mask31). reflexivity.
+        * reflexivity.
+      + rewrite !andb_false_r. reflexivity.
+    - (* at least two *)
+      cbn [map].
+      set (bm := ep_doc (to_eposting nf q) :: ep_doc (to_eposting nf q2) :: map ep_doc (map (to_eposting nf) P')).
+      assert (E2 : (lenN bm =? 1) = false) by (unfold bm, lenN; cbn [length]; lia).
+      rewrite E2. cbn [andb]. reflexivity.
+  Qed.
+
+  Lemma dict_main :
+    flat_map' (fun t => fst (OUT cm ndc nf f DsA t)) (all_terms (its f DsA))
+    = map (fun t => (t, encode_term mslot f t)) (o_terms M f).
+  Proof.
+    rewrite <- terms_kept. apply flat_map'_single.
+    - intros t _ H. rewrite OUT_empty by exact H. reflexivity.
+    - intros t _ H. rewrite OUT_kept by exact H. reflexivity.
+  Qed.
+
+  Lemma log_main :
+    flat_map' (fun t => snd (OUT cm ndc nf f DsA t)) (all_terms (its f DsA))
+    = map (fun t => mkTL t (lenN (o_postings M f t))
+                         (opt_default 0 (getChunkSize cm (lenN (o_postings M f t)) ndc))
+                         (map (to_eposting nf) (o_postings M f t)) (LAST f DsA t))
+          (o_terms M f).
+  Proof.
+    rewrite <- terms_kept. apply flat_map'_single.
+    - intros t _ H. rewrite OUT_empty by exact H. reflexivity.
+    - intros t _ H. rewrite OUT_kept by exact H. reflexivity.
+  Qed.
+  (* ---- (d) the field statistics ---- *)
+  Lemma flat_map'_ext_in {X Y} (g h : X -> list Y) (l : list X) :
+    (forall x, In x l -> g x = h x) -> flat_map' g l = flat_map' h l.
+  Proof.
+    induction l as [|x l IH]; intros H; [reflexivity|]. cbn [flat_map'].
+    rewrite (H x (or_introl eq_refl)), IH by (intros y Hy; apply H; right; exact Hy). reflexivity.
+  Qed.
+
+  Lemma TRK_main t : TRK f DsA t = map fst (o_postings M f t).
+  Proof.
+    unfold TRK. rewrite Dt_all by (intros D E; unfold hits_docs; rewrite E; reflexivity).
+    rewrite map_fst_eposting, <- PS_all. generalize Ds. intros l.
+    induction l as [|D l IH]; [reflexivity|]. cbn [flat_map']. rewrite map_app, <- IH. f_equal.
+    unfold seg_emit, hits_docs. rewrite map_map. apply map_ext. intros p. rewrite emit_doc. reflexivity.
+  Qed.
+
+  Lemma SUMF_main t : SUMF f DsA t = sumN (map ap_freq (o_postings M f t)).
+  Proof.
+    assert (E : SUMF f DsA t = sumN (map ep_freq (PS nf f DsA t))).
+    { unfold SUMF, PS. generalize (Dt f DsA t). intros l. induction l as [|D l IH]; [reflexivity|].
+      cbn [map sumN flat_map']. rewrite map_app, sumN_app, <- IH. f_equal.
+      unfold hits_freq, seg_emit. rewrite map_map. f_equal. apply map_ext. intros p.
+      rewrite emit_freq. reflexivity. }
+    rewrite E, PS_main, map_map. f_equal. apply map_ext. intros [d [fr [nm ls]]]. reflexivity.
+  Qed.
+
+  Lemma not_nonempty_postings t : nonempty t = false -> o_postings M f t = [].
+  Proof. unfold nonempty. destruct (o_postings M f t); [reflexivity|discriminate]. Qed.
+
+  Lemma track_main :
+    flat_map' (TRK f DsA) (all_terms (its f DsA))
+    = flat_map' (fun t => map fst (o_postings M f t)) (o_terms M f).
+  Proof.
+    rewrite (flat_map'_ext_in (TRK f DsA) (fun t => map fst (o_postings M f t)))
+      by (intros t _; apply TRK_main).
+    rewrite <- terms_kept. symmetry. apply flat_map'_filter_skip.
+    intros t _ H. rewrite (not_nonempty_postings t H). reflexivity.
+  Qed.
+
+  Lemma freqs_main :
+    sumN (map (SUMF f DsA) (all_terms (its f DsA)))
+    = sumN (map (fun t => sumN (map ap_freq (o_postings M f t))) (o_terms M f)).
+  Proof.
+    rewrite (map_ext (SUMF f DsA) _ SUMF_main). rewrite <- terms_kept.
+    generalize (all_terms (its f DsA)). intros T. induction T as [|t T IH]; [reflexivity|].
+    cbn [map sumN filter]. destruct (nonempty t) eqn:E; cbn [map sumN]; rewrite IH; [reflexivity|].
+    rewrite (not_nonempty_postings t E). reflexivity.
+  Qed.
+
+  Definition hasf (d : ADoc) : bool := negb (match doc_terms d f with [] => true | _ :: _ => false end).
+
+  Lemma number_from_filter_sorted {X} (P : N * X -> bool) : forall (l : list X) i,
+    strict_sorted_N (map fst (filter P (number_from i l)))
+    /\ forall x, In x (map fst (filter P (number_from i l))) -> i <= x.
+  Proof.
+    unfold strict_sorted_N. induction l as [|y l IH]; intros i; [split; [constructor|intros x []]|].
+    cbn [number_from filter]. destruct (IH (i + 1)) as [I1 I2].
+    destruct (P (i, y)); cbn [map fst].
+    - split.
+      + constructor; [exact I1|]. apply Forall_forall. intros x Hx. apply I2 in Hx. lia.
+      + intros x [<-|Hx]; [lia|]. apply I2 in Hx. lia.
+    - split; [exact I1|]. intros x Hx. apply I2 in Hx. lia.
+  Qed.
+
+  Lemma number_from_filter_length {X} (P : X -> bool) : forall (l : list X) i,
+    length (filter (fun nd : N * X => P (snd nd)) (number_from i l)) = length (filter P l).
+  Proof.
+    induction l as [|y l IH]; intros i; [reflexivity|]. cbn [number_from filter snd].
+    destruct (P y); cbn [length]; rewrite IH; reflexivity.
+  Qed.
+
+  Lemma find_some_nonnil (t : bytes) (l : list ATerm) v :
+    find (fun a : ATerm => beq (fst a) t) l = Some v -> l <> [].
+  Proof. destruct l; [discriminate|discriminate]. Qed.
+
+  Lemma docs_tracked :
+    sort_dedup_N (map wrap32 (flat_map' (fun t => map fst (o_postings M f t)) (o_terms M f)))
+    = map fst (filter (fun nd : N * ADoc => hasf (snd nd)) (number_from 0 (as_docs M))).
+  Proof.
+    set (X := flat_map' (fun t => map fst (o_postings M f t)) (o_terms M f)).
+    assert (EX : map wrap32 X = X).
+    { rewrite <- (map_id X) at 2. apply map_ext_in. intros d Hd. unfold X in Hd.
+      apply In_flat_map' in Hd. destruct Hd as [t [_ Hd]]. apply in_map_iff in Hd.
+      destruct Hd as [p [<- Hp]]. apply wrap32_small. pose proof (M_posting_doc t p Hp). lia. }
+    rewrite EX. apply strict_sorted_N_ext.
+    - apply sort_dedup_N_sorted.
+    - apply number_from_filter_sorted.
+    - intros d. rewrite sort_dedup_N_In. unfold X. rewrite In_flat_map'. split.
+      + intros [t [_ Hd]]. apply postings_docs_iff in Hd.
+        destruct Hd as [_ [doc [df [Hn [Hlt [Hdf [v Hv]]]]]]].
+        apply in_map_iff. exists (d, doc). split; [reflexivity|]. apply filter_In. split.
+        * apply number_from_In. exists (N.to_nat d). split; [lia|].
+          rewrite <- nthN_nth_error. exact Hn.
+        * cbn [snd]. unfold hasf, doc_terms. rewrite Hdf.
+          pose proof (find_some_nonnil t _ v Hv). destruct (adf_terms df); [contradiction|reflexivity].
+      + intros Hd. apply in_map_iff in Hd. destruct Hd as [[d' doc] [E Hin]]. cbn [fst] in E. subst d'.
+        apply filter_In in Hin. destruct Hin as [Hin Hh]. cbn [snd] in Hh.
+        unfold hasf, doc_terms in Hh. destruct (doc_field doc f) as [df|] eqn:Edf; [|discriminate].
+        destruct (adf_terms df) as [|a l] eqn:Eat; [discriminate|].
+        assert (Hdt : In d (map fst (o_postings M f (fst a)))).
+        { apply postings_docs_iff. split; [apply known_M|].
+          apply number_from_In in Hin. destruct Hin as [k [Ek Hk]].
+          exists doc, df. split; [|split; [|split]].
+          - rewrite nthN_nth_error. replace (N.to_nat d) with k by lia. exact Hk.
+          - unfold o_count, lenN.
+            assert (Hlt : (k < length (as_docs M))%nat) by (apply nth_error_Some; rewrite Hk; discriminate).
+            lia.
+          - exact Edf.
+          - exists a. rewrite Eat. cbn [find]. rewrite beq_refl. reflexivity. }
+        exists (fst a). split; [|exact Hdt].
+        apply postings_term. intros E0. rewrite E0 in Hdt. destruct Hdt.
+  Qed.
+  Lemma docs_main :
+    lenN (sort_dedup_N (map wrap32 (flat_map' (TRK f DsA) (all_terms (its f DsA)))))
+    = fst (merged_stats (as_docs M) f).
+  Proof.
+    rewrite track_main, docs_tracked. unfold merged_stats. cbn [fst]. unfold lenN. f_equal.
+    rewrite map_length. apply (number_from_filter_length hasf).
+  Qed.
+
+  (* the frequency of term t in document d, 0 when absent *)
+  Definition tf (d : ADoc) (t : bytes) : N :=
+    match doc_field d f with
+    | Some df =>
+        match find (fun a : ATerm => beq (fst a) t) (adf_terms df) with
+        | Some (_, (fr, _)) => fr
+        | None => 0
+        end
+    | None => 0
+    end.
+
+  Lemma posts_freq_sum t : forall docs i,
+    sumN (map ap_freq (posts_from f t i docs)) = sumN (map (fun d => tf d t) docs).
+  Proof.
+    induction docs as [|d docs IH]; intros i; [reflexivity|].
+    rewrite posts_from_cons, map_app, sumN_app, IH. cbn [map sumN]. f_equal.
+    unfold doc_posting, tf. cbn [snd fst]. destruct (doc_field d f) as [df|]; [|reflexivity].
+    destruct (find _ _) as [[k [fr ls]]|]; [|reflexivity]. cbn [map sumN ap_freq fst snd]. unfold ap_freq. cbn. lia.
+  Qed.
+
+  Lemma sum_add {X} (a b : X -> N) (l : list X) :
+    sumN (map (fun x => a x + b x) l) = sumN (map a l) + sumN (map b l).
+  Proof. induction l as [|x l IH]; [reflexivity|]. cbn [map sumN]. rewrite IH. lia. Qed.
+
+  Lemma sum_swap {X Y} (g : X -> Y -> N) (xs : list X) (ys : list Y) :
+    sumN (map (fun y => sumN (map (fun x => g x y) xs)) ys)
+    = sumN (map (fun x => sumN (map (fun y => g x y) ys)) xs).
+  Proof.
+    induction ys as [|y ys IH].
+    - cbn [map sumN]. induction xs as [|x xs IHx]; [reflexivity|]. cbn [map sumN]. rewrite <- IHx. reflexivity.
+    - cbn [map sumN]. rewrite IH, <- sum_add. reflexivity.
+  Qed.
+
+  Lemma sum_zero {X} (l : list X) : sumN (map (fun _ => 0) l) = 0.
+  Proof. induction l as [|x l IH]; [reflexivity|]. cbn [map sumN]. rewrite IH. reflexivity. Qed.
+
+  Lemma sum_point (G : bytes -> N) (k : bytes) (a : N) : forall T,
+    NoDup T -> In k T -> G k = 0 ->
+    sumN (map (fun t => if beq k t then a else G t) T) = a + sumN (map G T).
+  Proof.
+    induction T as [|x T IH]; intros Hnd Hin HG; [destruct Hin|].
+    inversion Hnd as [|? ? Hni Hnd']; subst. cbn [map sumN].
+    destruct Hin as [->|Hin].
+    - rewrite beq_refl, HG.
+      rewrite (map_ext_in (fun t => if beq k t then a else G t) G); [lia|].
+      intros t Ht. destruct (beq k t) eqn:E; [|reflexivity]. apply beq_eq in E. subst t. contradiction.
+    - destruct (beq k x) eqn:E.
+      + apply beq_eq in E. subst x. contradiction.
+      + rewrite IH by assumption. lia.
+  Qed.
+
+  Lemma find_notin (t : bytes) (l : list ATerm) :
+    ~ In t (map fst l) -> find (fun a : ATerm => beq (fst a) t) l = None.
+  Proof.
+    induction l as [|a l IH]; intros H; [reflexivity|]. cbn [find].
+    destruct (beq (fst a) t) eqn:E.
+    - apply beq_eq in E. exfalso. apply H. left. exact E.
+    - apply IH. intros Hin. apply H. right. exact Hin.
+  Qed.
+
+  Definition freq_in (l : list ATerm) (t : bytes) : N :=
+    match find (fun a : ATerm => beq (fst a) t) l with Some (_, (fr, _)) => fr | None => 0 end.
+
+  Lemma sum_find (T : list bytes) : forall (l : list ATerm),
+    NoDup T -> NoDup (map fst l) -> (forall a, In a l -> In (fst a) T) ->
+    sumN (map (freq_in l) T) = sumN (map (fun a : ATerm => fst (snd a)) l).
+  Proof.
+    induction l as [|[k [fr ls]] l IH]; intros HT Hl Hin.
+    - unfold freq_in. cbn [find map sumN]. apply sum_zero.
+    - cbn [map sumN fst snd]. cbn [map fst] in Hl. inversion Hl as [|? ? Hni Hl']; subst.
+      rewrite <- IH; [|exact HT|exact Hl'|intros a Ha; apply Hin; right; exact Ha].
+      rewrite <- (sum_point (freq_in l) k fr T HT).
+      + f_equal. apply map_ext. intros t. unfold freq_in. cbn [find fst]. destruct (beq k t); reflexivity.
+      + apply (Hin (k, (fr, ls))). left. reflexivity.
+      + unfold freq_in. rewrite find_notin by exact Hni. reflexivity.
+  Qed.
+
+  Lemma M_doc_source d : In d (as_docs M) -> exists A dr e, In (A, dr, e) insE /\ In d (as_docs A).
+  Proof.
+    rewrite merge_docs. intros H. apply In_flat_map' in H. destruct H as [[A dr] [Hin Hd]].
+    unfold ins_of in Hin. apply in_map_iff in Hin. destruct Hin as [[[A' dr'] e] [E Hin]].
+    cbn [fst] in E. injection E as -> ->. exists A, dr, e. split; [exact Hin|].
+    cbn [fst snd] in Hd. rewrite survivors_keep in Hd. eapply keep_In. exact Hd.
+  Qed.
+
+  Lemma doc_freq_sum d : In d (as_docs M) ->
+    sumN (map (fun t => tf d t) (o_terms M f))
+    = sumN (map (fun t : ATerm => fst (snd t)) (doc_terms d f)).
+  Proof.
+    intros Hd. unfold tf, doc_terms. destruct (doc_field d f) as [df|] eqn:Edf.
+    2:{ cbn [map sumN]. apply sum_zero. }
+    apply (sum_find (o_terms M f) (adf_terms df)).
+    - apply strict_sorted_bytes_NoDup. apply o_terms_sorted.
+    - destruct (M_doc_source d Hd) as [A [dr [e [Hin HdA]]]]. destruct (Hins A dr e Hin) as [Hwf _].
+      apply (wf_terms_nodup A Hwf d df HdA). unfold doc_field in Edf. apply find_some in Edf. apply Edf.
+    - intros a Ha. unfold o_terms. rewrite known_M. apply sort_dedup_bytes_In. apply In_flat_map'.
+      exists d. split; [exact Hd|]. unfold doc_terms. rewrite Edf. apply in_map. exact Ha.
+  Qed.
+
+  Lemma freqs_stats :
+    sumN (map (fun t => sumN (map ap_freq (o_postings M f t))) (o_terms M f))
+    = snd (merged_stats (as_docs M) f).
+  Proof.
+    unfold merged_stats. cbn [snd].
+    rewrite (map_ext (fun t => sumN (map ap_freq (o_postings M f t)))
+                     (fun t => sumN (map (fun d => tf d t) (as_docs M)))).
+    2:{ intros t. rewrite o_postings_from, known_M. apply posts_freq_sum. }
+    rewrite sum_swap. f_equal. apply map_ext_in. intros d Hd. apply doc_freq_sum. exact Hd.
+  Qed.
+
+  (* ---- the active inputs as setupActiveForField builds them ---- *)
+  Definition seg_input (D : SegD) : list bytes * option (list (bytes * EncPL)) * list N * list N :=
+    (as_fields (sd_A D),
+     (if foc (sd_A D) then Some (map (fun t => (t, sd_enc D t)) (o_terms (sd_A D) f)) else None),
+     sd_dr D, sd_tbl D).
+  Definition merge_acts : list ActiveIn := setup_active (map seg_input Ds).
+
+  Lemma merge_acts_eq : merge_acts = acts f DsA.
+  Proof.
+    unfold merge_acts, acts, DsA. generalize Ds. intros l.
+    induction l as [|D l IH]; [reflexivity|].
+    unfold setup_active in *. cbn [map flat_map' filter]. rewrite IH. unfold seg_input at 1.
+    destruct (foc (sd_A D)); reflexivity.
+  Qed.
+
+  (* ================================================================ *)
+  (* 7. the theorems                                                   *)
+  (* ================================================================ *)
+
+  Definition log_view (l : TermLog) : bytes * N * N * list EPosting :=
+    (tl_term l, tl_card l, tl_cs l, tl_ps l).
+
+  (* everything at once *)
+  Theorem merge_field_correct :
+    exists r, merge_field cm ndc nf merge_acts = Ok r
+      /\ fr_dict r = map (fun t => (t, encode_term mslot f t)) (o_terms M f)
+      /\ map log_view (fr_log r)
+         = map (fun t => (t, lenN (o_postings M f t),
+                          opt_default 0 (getChunkSize cm (lenN (o_postings M f t)) ndc),
+                          map (to_eposting nf) (o_postings M f t))) (o_terms M f)
+      /\ fr_docs r = fst (merged_stats (as_docs M) f)
+      /\ fr_freqs r = snd (merged_stats (as_docs M) f).
+  Proof.
+    rewrite merge_acts_eq.
+    destruct (merge_field_run cm ndc nf f DsA HD_main Hcs_main) as [r [E [V [L [T F]]]]].
+    exists r. split; [exact E|]. split; [rewrite V; apply dict_main|].
+    split; [rewrite L, log_main, map_map; reflexivity|].
+    split; [rewrite T; apply docs_main|]. rewrite F, freqs_main. apply freqs_stats.
+  Qed.
+
+  (* (a) the postings collected for every term of the inputs - also those
+     that end up without survivor - are the merged postings of the term *)
+  Theorem collected_postings t :
+    PS nf f DsA t = map (to_eposting nf) (o_postings M f t).
+  Proof. apply PS_main. Qed.
+
+  (* (a) as the run records it at finishTerm, for the terms it inserts *)
+  Theorem merge_term_postings r :
+    merge_field cm ndc nf merge_acts = Ok r ->
+    map (fun l => (tl_term l, tl_ps l)) (fr_log r)
+    = map (fun t => (t, map (to_eposting nf) (o_postings M f t))) (o_terms M f).
+  Proof.
+    intros E. destruct merge_field_correct as [r' [E' [_ [L _]]]]. rewrite E in E'. injection E' as <-.
+    rewrite <- (map_map log_view (fun v : bytes * N * N * list EPosting => (fst (fst (fst v)), snd v))).
+    rewrite L, map_map. reflexivity.
+  Qed.
+
+  (* (b) the terms kept are the terms of the merged segment, in order *)
+  Theorem merge_terms r :
+    merge_field cm ndc nf merge_acts = Ok r -> map fst (fr_dict r) = o_terms M f.
+  Proof.
+    intros E. destruct merge_field_correct as [r' [E' [V _]]]. rewrite E in E'. injection E' as <-.
+    rewrite V, map_map. cbn [fst]. apply map_id.
+  Qed.
+
+  (* (c) every kept term is encoded as Run.encode_term says, 1-hit rule included;
+     newCard is the number of merged postings and the chunk size follows *)
+  Theorem merge_encoding r :
+    merge_field cm ndc nf merge_acts = Ok r ->
+    fr_dict r = map (fun t => (t, encode_term mslot f t)) (o_terms M f)
+    /\ map (fun l => (tl_term l, tl_card l, tl_cs l)) (fr_log r)
+       = map (fun t => (t, lenN (o_postings M f t),
+                        opt_default 0 (getChunkSize cm (lenN (o_postings M f t)) ndc))) (o_terms M f).
+  Proof.
+    intros E. destruct merge_field_correct as [r' [E' [V [L _]]]]. rewrite E in E'. injection E' as <-.
+    split; [exact V|].
+    rewrite <- (map_map log_view (fun v : bytes * N * N * list EPosting => fst v)).
+    rewrite L, map_map. reflexivity.
+  Qed.
+
+  (* (d) the repaired statistics *)
+  Theorem merge_field_stats r :
+    merge_field cm ndc nf merge_acts = Ok r ->
+    fr_docs r = fst (merged_stats (as_docs M) f) /\ fr_freqs r = snd (merged_stats (as_docs M) f).
+  Proof.
+    intros E. destruct merge_field_correct as [r' [E' [_ [_ [T F]]]]]. rewrite E in E'. injection E' as <-.
+    split; assumption.
+  Qed.
+
+  (* (e) no error, no panic, enough fuel *)
+  Theorem merge_field_total : exists r, merge_field cm ndc nf merge_acts = Ok r.
+  Proof. destruct merge_field_correct as [r [E _]]. exists r. exact E. Qed.
+  (* the abstraction of tfEncoder / locEncoder made in the model is justified for
+     the postings the loop collects: fed with their freq_adds / loc_adds and the
+     chunk size of prepareNewTerm, the two coders hold exactly the chunk streams
+     of encode_gen (IntCoder_Proofs.writer_encodes_gen) *)
+  Theorem merged_term_coders (zc zd : bytes -> bytes) :
+    (forall b, zd (zc b) = b) -> zc [] = [] -> (forall b, b <> [] -> zc b <> []) ->
+    forall t,
+    let ps := map (to_eposting nf) (o_postings M f t) in
+    let cs := opt_default 0 (getChunkSize cm (lenN (o_postings M f t)) ndc) in
+    exists cf cl,
+      IntCoder.run_term zc cs (ndc - 1) (IntCoder.freq_adds ps) = Ok cf
+      /\ IntCoder.run_term zc cs (ndc - 1) (IntCoder.loc_adds ps) = Ok cl
+      /\ read_back zd cs (map ep_doc ps) cf cl = encode_gen cs (N.to_nat (ms_total ndc cs)) ps.
+  Proof.
+    intros Hz1 Hz2 Hz3 t ps cs.
+    assert (Hcs : 0 < cs).
+    { destruct (Hcs_main t) as [c [E H]]. rewrite card_main in E. unfold cs. rewrite E. exact H. }
+    apply (writer_encodes_gen zc zd Hz1 Hz2 Hz3 cs (ndc - 1) ps Hcs).
+    - assert (Hq : (ndc - 1) / cs <= ndc - 1).
+      { apply N.div_le_upper_bound; [lia|]. rewrite <- (N.mul_1_l (ndc - 1)) at 1.
+        apply N.mul_le_mono_r. lia. }
+      unfold two32, two64 in *. lia.
+    - unfold ps. apply (sorted_map (fun p q : APosting => fst p < fst q)); [|apply o_postings_sorted].
+      intros a b Hab. unfold le_pdoc. rewrite !to_eposting_doc. lia.
+    - apply Forall_forall. intros p Hp. unfold ps in Hp. apply in_map_iff in Hp.
+      destruct Hp as [q [<- Hq]]. rewrite to_eposting_doc. pose proof (M_posting_doc t q Hq). lia.
+  Qed.
+End Main.
+
+(* ================================================================== *)
+(* 8. (f) an example: two inputs, a deletion, a 1-hit term, and a term  *)
+(*    whose last input contributes no survivor                         *)
+(* ================================================================== *)
+
+Definition exf : bytes := [97].     (* field "a" *)
+Definition extx : bytes := [120].   (* "x": only in the first input, one posting of frequency 1 *)
+Definition exty : bytes := [121].   (* "y": in both inputs, the posting of the second one is deleted *)
+Definition extz : bytes := [122].   (* "z": only in the second input, with locations *)
+
+Definition ex_mkdoc (idv : N) (terms : list ATerm) : ADoc :=
+  mkADoc [ mkADF id_name 1065353216 [([idv], (1, []))] false; mkADF exf 1060439283 terms false ]
+         [(id_name, [idv])].
+Definition ex_segA : ASeg :=
+  mkASeg [id_name; exf] [ex_mkdoc 48 [(extx, (1, []))]; ex_mkdoc 49 [(exty, (1, []))]] [].
+Definition ex_segB : ASeg :=
+  mkASeg [id_name; exf]
+         [ex_mkdoc 50 [(exty, (1, []))];
+          ex_mkdoc 51 [(extz, (2, [(exf, (1, (0, 3))); (exf, (4, (10, 13)))]))]] [].
+
+Definition ex_gen (A : ASeg) (cs : N) (total : nat) (t : bytes) : EncPL :=
+  encode_gen cs total (map (to_eposting (as_fields A)) (o_postings A exf t)).
+(* the first input stores "x" in the 1-hit form (a segment written by a merge) *)
+Definition ex_encA (t : bytes) : EncPL :=
+  if beq t extx then E1Hit 0 1060439283 else ex_gen ex_segA 1 2 t.
+
+Definition ex_insE : list InE := [(ex_segA, [], ex_encA); (ex_segB, [0], ex_gen ex_segB 2 1)].
+Definition ex_M : ASeg := fst (merge_spec (ins_of ex_insE)).
+Definition ex_acts : list ActiveIn := merge_acts exf ex_insE (fun A => known_field A exf).
+
+(* "x" becomes a 1-hit; "y" has a single surviving posting of frequency 1
+   without locations but is NOT 1-hit encoded, because the last input that has
+   it (the second one) delivers no posting and leaves lastFreq = 0; "z" keeps
+   its locations under the merged field ids; documents are renumbered 0, 1, 2 *)
+Example ex_merge_field :
+  merge_field 1025 (o_count ex_M) (as_fields ex_M) ex_acts
+  = Ok (mkFR
+      [ (extx, E1Hit 0 1060439283);
+        (exty, EGen [1] 3 [[2; 243; 137; 212; 249; 3]] None);
+        (extz, EGen [2] 3 [[5; 243; 137; 212; 249; 3]] (Some [[8; 1; 1; 0; 3; 1; 4; 10; 13]])) ]
+      3 4
+      [ mkTL extx 1 3 [(0, (1, (1060439283, [])))] (0, (1, 1060439283));
+        mkTL exty 1 3 [(1, (1, (1060439283, [])))] (0, (0, 0));
+        mkTL extz 1 3 [(2, (2, (1060439283, [(1, (1, (0, 3))); (1, (4, (10, 13)))])))] (2, (2, 1060439283)) ]).
+Proof. vm_compute. reflexivity. Qed.
+
+(* the same result, computed from the specification side *)
+Example ex_merge_field_spec :
+  match merge_field 1025 (o_count ex_M) (as_fields ex_M) ex_acts with
+  | Ok r =>
+      fr_dict r = map (fun t => (t, encode_term (mslot 1025 ex_insE) exf t)) (o_terms ex_M exf)
+      /\ (fr_docs r, fr_freqs r) = merged_stats (as_docs ex_M) exf
+      /\ merge_no1hit (ins_of ex_insE) ex_M = [(exf, exty)]
+  | _ => False
+  end.
+Proof. vm_compute. repeat split; reflexivity. Qed.
+
+(* ------------------------------------------------------------------ *)
+(* a boolean check of wf_seg, to show that the hypotheses are not vacuous *)
+(* ------------------------------------------------------------------ *)
+
+Definition wf_locb (nfields : nat) (l : ELoc) : bool :=
+  let '(fi, (p, (s, e))) := l in
+  Nat.ltb (N.to_nat fi) nfields && (fi <? two64) && (p <? two64) && (s <? two64) && (e <? two64).
+Definition wf_postingb (nfields : nat) (p : EPosting) : bool :=
+  (ep_doc p <? two32) && (ep_freq p <? 9223372036854775808) && (ep_norm p <? two32)
+  && Nat.leb (length (ep_locs p)) (N.to_nat (ep_freq p))
+  && forallb (wf_locb nfields) (ep_locs p)
+  && (sumN (map loc_size (ep_locs p)) <? two64).
+Definition wf_apostingb (fields : list bytes) (p : APosting) : bool :=
+  wf_postingb (length fields) (to_eposting fields p)
+  && forallb (fun l : ALoc => mem beq (fst l) fields) (snd (snd (snd p)))
+  && negb (ap_norm p =? 0).
+
+Lemma wf_locb_sound n l : wf_locb n l = true -> wf_loc n l.
+Proof.
+  destruct l as [fi [p [s e]]]. unfold wf_locb, wf_loc. intros H.
+  repeat (apply andb_prop in H; destruct H as [H ?]).
+  apply Nat.ltb_lt in H. repeat split; try (apply N.ltb_lt; assumption). exact H.
+Qed.
+
+Lemma wf_postingb_sound n p : wf_postingb n p = true -> wf_posting n p.
+Proof.
+  unfold wf_postingb, wf_posting. intros H.
+  repeat (apply andb_prop in H; destruct H as [H ?]).
+  repeat split; try (apply N.ltb_lt; assumption).
+  - apply Nat.leb_le. assumption.
+  - apply Forall_forall. intros l Hl.
+    match goal with Hf : forallb _ _ = true |- _ => rewrite forallb_forall in Hf; apply wf_locb_sound, Hf, Hl end.
+Qed.
+
+Lemma wf_apostingb_sound fields p : wf_apostingb fields p = true -> wf_aposting fields p.
+Proof.
+  unfold wf_apostingb, wf_aposting. intros H.
+  apply andb_prop in H. destruct H as [H H3]. apply andb_prop in H. destruct H as [H1 H2].
+  split; [apply wf_postingb_sound; exact H1|]. split.
+  - apply Forall_forall. intros l Hl. rewrite forallb_forall in H2. apply (mem_In beq beq_eq). apply H2, Hl.
+  - apply negb_true_iff in H3. apply N.eqb_neq. exact H3.
+Qed.
+
+Fixpoint nodupb (l : list bytes) : bool :=
+  match l with [] => true | x :: r => negb (mem beq x r) && nodupb r end.
+
+Lemma nodupb_sound l : nodupb l = true -> NoDup l.
+Proof.
+  induction l as [|x r IH]; intros H; [constructor|]. cbn [nodupb] in H.
+  apply andb_prop in H. destruct H as [H1 H2]. constructor; [|apply IH; exact H2].
+  intros Hin. apply (mem_In beq beq_eq) in Hin. rewrite Hin in H1. discriminate.
+Qed.
+
+Definition wf_segb (A : ASeg) : bool :=
+  forallb (fun nd : N * ADoc =>
+     forallb (fun df =>
+        mem beq (adf_name df) (as_fields A) && nodupb (map fst (adf_terms df))
+        && forallb (fun a : ATerm =>
+              wf_apostingb (as_fields A) (fst nd, (fst (snd a), (adf_norm df, snd (snd a)))))
+             (adf_terms df))
+       (ad_fields (snd nd)))
+    (number_from 0 (as_docs A))
+  && (o_count A <? 2147483648).
+
+Lemma o_postings_entry (A : ASeg) (f t : bytes) (p : APosting) :
+  In p (o_postings A f t) ->
+  exists n d df a, In (n, d) (number_from 0 (as_docs A)) /\ In df (ad_fields d) /\ In a (adf_terms df)
+                   /\ p = (n, (fst (snd a), (adf_norm df, snd (snd a)))).
+Proof.
+  rewrite o_postings_from. destruct (known_field A f); [|intros []].
+  unfold posts_from. intros H. apply In_flat_map' in H. destruct H as [[n d] [Hnd Hp]].
+  unfold doc_posting in Hp. cbn [fst snd] in Hp.
+  destruct (doc_field d f) as [df|] eqn:Edf; [|destruct Hp].
+  match type of Hp with context [match ?x with _ => _ end] => destruct x as [[k [fr ls]]|] eqn:Ef end; [|destruct Hp].
+  destruct Hp as [<-|[]]. exists n, d, df, (k, (fr, ls)). split; [exact Hnd|].
+  unfold doc_field in Edf. apply find_some in Edf. apply find_some in Ef.
+  split; [apply Edf|]. split; [apply Ef|reflexivity].
+Qed.
+
+Lemma wf_segb_sound (A : ASeg) : canonical_fields (as_fields A) -> wf_segb A = true -> wf_seg A.
+Proof.
+  intros Hc H. unfold wf_segb in H. apply andb_prop in H. destruct H as [H Hcount].
+  rewrite forallb_forall in H.
+  assert (Hdf : forall n d df, In (n, d) (number_from 0 (as_docs A)) -> In df (ad_fields d) ->
+            mem beq (adf_name df) (as_fields A) = true /\ nodupb (map fst (adf_terms df)) = true
+            /\ forall a, In a (adf_terms df) ->
+                 wf_apostingb (as_fields A) (n, (fst (snd a), (adf_norm df, snd (snd a)))) = true).
+  { intros n d df Hnd Hin. specialize (H (n, d) Hnd). cbn [fst snd] in H.
+    rewrite forallb_forall in H. specialize (H df Hin).
+    apply andb_prop in H. destruct H as [H H3]. apply andb_prop in H. destruct H as [H1 H2].
+    split; [exact H1|]. split; [exact H2|]. rewrite forallb_forall in H3. exact H3. }
+  assert (Hnum : forall d, In d (as_docs A) -> exists n, In (n, d) (number_from 0 (as_docs A))).
+  { intros d Hd. apply In_nth_error in Hd. destruct Hd as [k Hk]. exists (0 + N.of_nat k).
+    apply number_from_In. exists k. auto. }
+  constructor.
+  - exact Hc.
+  - intros d df Hd Hin. destruct (Hnum d Hd) as [n Hn]. apply (mem_In beq beq_eq). apply (Hdf n d df Hn Hin).
+  - intros d df Hd Hin. destruct (Hnum d Hd) as [n Hn]. apply nodupb_sound. apply (Hdf n d df Hn Hin).
+  - intros f t p Hp. destruct (o_postings_entry A f t p Hp) as [n [d [df [a [Hnd [Hin [Ha ->]]]]]]].
+    apply wf_apostingb_sound. apply (Hdf n d df Hnd Hin). exact Ha.
+  - apply N.ltb_lt. exact Hcount.
+Qed.
+
+(* the example satisfies the hypotheses of the theorems (they are not vacuous) *)
+Lemma ex_canonical : canonical_fields [id_name; exf].
+Proof.
+  exists [exf]. split; [reflexivity|]. split.
+  - repeat constructor.
+  - intros [H|[]]. discriminate.
+Qed.
+
+Lemma ex_wf_A : wf_seg ex_segA.
+Proof. apply wf_segb_sound; [apply ex_canonical|vm_compute; reflexivity]. Qed.
+Lemma ex_wf_B : wf_seg ex_segB.
+Proof. apply wf_segb_sound; [apply ex_canonical|vm_compute; reflexivity]. Qed.
+
+Lemma ex_inputs_ok : forall A dr e, In (A, dr, e) ex_insE ->
+  wf_seg A /\ (forall t, In t (o_terms A exf) -> admissible_enc A exf t (e t)).
+Proof.
+  intros A dr e [E|[E|[]]]; injection E as <- <- <-.
+  - split; [apply ex_wf_A|]. intros t Ht.
+    assert (ET : o_terms ex_segA exf = [extx; exty]) by (vm_compute; reflexivity).
+    rewrite ET in Ht. destruct Ht as [<-|[<-|[]]].
+    + left. exists 0, 1060439283. split; [vm_compute; reflexivity|]. split; [|vm_compute; reflexivity].
+      unfold mask31. lia.
+    + right. exists 1, 2%nat. split; [lia|]. split; [|reflexivity].
+      assert (EP : o_postings ex_segA exf exty = [(1, (1, (1060439283, [])))]) by (vm_compute; reflexivity).
+      rewrite EP. intros p [<-|[]]. vm_compute. lia.
+  - split; [apply ex_wf_B|]. intros t Ht.
+    assert (ET : o_terms ex_segB exf = [exty; extz]) by (vm_compute; reflexivity).
+    rewrite ET in Ht. destruct Ht as [<-|[<-|[]]]; right; exists 2, 1%nat; (split; [lia|]); (split; [|reflexivity]).
+    + assert (EP : o_postings ex_segB exf exty = [(0, (1, (1060439283, [])))]) by (vm_compute; reflexivity).
+      rewrite EP. intros p [<-|[]]. vm_compute. lia.
+    + assert (EP : o_postings ex_segB exf extz
+                   = [(1, (2, (1060439283, [(exf, (1, (0, 3))); (exf, (4, (10, 13)))])))])
+        by (vm_compute; reflexivity).
+      rewrite EP. intros p [<-|[]]. vm_compute. lia.
+Qed.
+
+(* the general theorem applies to the example (and agrees with ex_merge_field) *)
+Theorem ex_theorem_applies :
+  exists r, merge_field 1025 (o_count ex_M) (as_fields ex_M) ex_acts = Ok r
+    /\ fr_dict r = map (fun t => (t, encode_term (mslot 1025 ex_insE) exf t)) (o_terms ex_M exf)
+    /\ fr_docs r = fst (merged_stats (as_docs ex_M) exf)
+    /\ fr_freqs r = snd (merged_stats (as_docs ex_M) exf).
+Proof.
+  destruct (merge_field_correct 1025 exf ex_insE (fun A => known_field A exf)) as [r [E [V [_ [D F]]]]].
+  - apply ex_inputs_ok.
+  - intros A dr e _ H. exact H.
+  - assert (EF : as_fields (fst (merge_spec (ins_of ex_insE))) = [id_name; exf]) by (vm_compute; reflexivity).
+    rewrite EF. right. left. reflexivity.
+  - reflexivity.
+  - vm_compute. reflexivity.
+  - vm_compute. reflexivity.
+  - exists r. repeat split; assumption.
+Qed.
